@@ -1,3 +1,39 @@
+import os, sys
+
+
+def _race_hook(prop, outdir, name, corr_broken, io_fails, log):
+    """Once per check run (after the first generated stream): the concurrent-decoders family in a process of its own,
+    built with -race (CGO). A reported data race, a crash, or an oracle failure there is an IO failure of the property.
+    Without a -race toolchain the plain binary runs the same family once more."""
+    if not name.startswith("gen:") or getattr(_race_hook, "done", False):
+        return
+    _race_hook.done = True
+    V = sys.modules["__main__"]
+    mode = "race"
+    try:
+        rc, out, binp = V.build_harness(prop, CFG, log, race=True)
+    except Exception as e:
+        rc, out, binp = 1, str(e), None
+    if rc != 0:
+        log("race build not possible (rc=%d): %s" % (rc, out[-300:].replace("\n", " | ")))
+        mode = "norace"
+        binp = os.path.join(V.BUILD, "svh-" + prop.lower())
+    od = os.path.join(os.path.dirname(outdir), "conc")
+    thorough = "thorough" in sys.argv
+    ms = "8000" if thorough else "1500"
+    rc, out, dt = V.run_harness(binp, od, 7, "thorough" if thorough else "quick", extra=["-conconly", ms], timeout=600)
+    log("concurrent decoders (%s build) rc=%d %.1fs" % (mode, rc, dt))
+    inp = "note concurrent decoders (%s build, -conconly %s, seed 7)" % (mode, ms)
+    if "DATA RACE" in out:
+        i = out.index("DATA RACE")
+        io_fails.append({"sig": "data-race", "input": inp, "detail": out[max(0, i - 20):i + 1800], "stream": "conc"})
+    elif rc != 0:
+        i = out.find("fatal error")
+        io_fails.append({"sig": "concurrent-run-crashed", "input": inp,
+                         "detail": out[i:i + 1200] if i >= 0 else out[-1200:], "stream": "conc"})
+    io_fails += [dict(x, stream="conc") for x in V.read_io(od)]
+
+
 CFG = dict(
     lean_modules=["SaramaVerif.Model.CodecPrim", "SaramaVerif.Model.CodecFmt", "SaramaVerif.Model.CodecRecords",
                   "SaramaVerif.Model.CodecMachine", "SaramaVerif.Model.CodecSchemas",
@@ -5,6 +41,7 @@ CFG = dict(
                   "SaramaVerif.Props.C09", "SaramaVerif.Bridge.C09"],
     lean_support=["SaramaVerif.GoSem", "SaramaVerif.Gen.C09", "SaramaVerif.Driver.C09"],
     model="C09",
+    custom=_race_hook,
     required_theorems=[
         "Props.C09.int_roundtrip", "Props.C09.varint_roundtrip", "Props.C09.uvarint_roundtrip",
         "Props.C09.varint_zigzag_spec", "Props.C09.uvarint_spec",
@@ -45,6 +82,11 @@ CFG = dict(
         "call to the next, in particular after a refused encode: oversize under a lowered MaxRequestSize, string too long, invalid "
         "timestamp inside nested length/CRC fields, refused flag) is tied by the `hist` stream only: sequences of 6-15 encodes of random "
         "bodies with refused encodes interleaved, each valid encode compared with a clean sizing+writing pass and decoded",
+        "the model's dec is a pure function of the bytes; that the real decoder shares no mutable state between calls (pooled CRC / "
+        "length fields, readers) is tied by the `concrun` family only: 8 goroutines decode and re-encode a corpus of valid encodings "
+        "(legacy sets magic 0/1 plain and wrapped with every codec, record batches with every codec, FetchResponse v1/v4/v11 and "
+        "ProduceRequest v2/v7 carrying records) for 1 s (6 s thorough) against the single-threaded reference, and once more in a "
+        "-race build where a reported DATA RACE is a failure (observed, not proved)",
         "time.Time/time.Duration fields are compared at the wire granularity (milliseconds; zero time = -1)",
         "the compression level is configuration, not wire data: values are compared and re-encoded at the default level"],
     trusted_base=[],
